@@ -244,7 +244,7 @@ func main() {
 		}
 	}
 
-	total := o.Count(260, 2600)
+	total := o.Count(200, 2600)
 	nproc := o.Count(20, 60)
 	if o.N > 0 {
 		nproc = 4
@@ -509,7 +509,7 @@ func main() {
 	// process-wide node ID counter at the start of the transform differs widely between the
 	// in-process runs and the fresh process each of them is compared with ----
 	pipe.CheckVariant = 0
-	nbig := o.Count(12, 60)
+	nbig := o.Count(10, 60)
 	if o.N > 0 {
 		nbig = 3
 	}
@@ -562,7 +562,7 @@ func main() {
 	// ---- schema pairs: A and B differ in exactly ONE const argument of a custom function and are
 	// run over the same input, A then B here, B then A in a fresh process: whichever runs first
 	// must not decide the other's output (process-wide memos inside custom functions) ----
-	npairs := o.Count(24, 120)
+	npairs := o.Count(20, 120)
 	if o.N > 0 {
 		npairs = 3
 	}
